@@ -41,7 +41,8 @@ def getAct (j : Json) : Except String (Option (T → T)) := do
 def getGeom (j : Json) : Except String Geom := do
   pure { n := ← getNat j "n", h := ← getNat j "h", w := ← getNat j "w", cin := ← getNat j "cin",
          kh := ← getNat j "kh", kw := ← getNat j "kw", sh := ← getNat j "sh", sw := ← getNat j "sw",
-         dh := ← getNat j "dh", dw := ← getNat j "dw", same := ← getBool j "same" }
+         dh := ← getNat j "dh", dw := ← getNat j "dw", same := ← getBool j "same",
+         cf := (getBool j "cf").toOption.getD false }
 
 def getCfg (j : Json) : Except String LayerCfg := do
   let cls ← getStr j "cls"
@@ -100,18 +101,52 @@ def getOp (j : Json) : Except String LayerOp := do
   match op with
   | "input" => pure .input
   | "conv" => pure (.conv (← getPlain j))
-  | "bn" => pure (.bn (← getBN j) (← getNat j "cout"))
+  | "bn" => do
+    let cout ← getNat j "cout"
+    pure (.bn (← getBN j) (fun t => t % cout))
   | "folded" => pure (.folded (← getFolded j))
   | "relu" => pure (.un relu)
   | "add" => pure (.bin addT)
   | _ => throw s!"bad op {op}"
+
+def getSlot (s : String) : Except String Slot :=
+  match s with
+  | "kernel" => pure .kernel | "bias" => pure .bias | "gamma" => pure .gamma | "beta" => pure .beta
+  | "mean" => pure .mean | "var" => pure .var
+  | _ => throw s!"bad slot {s}"
+
+def getHistOp (j : Json) : Except String Op := do
+  let k ← getStr j "k"
+  match k with
+  | "get" => pure .getFolded
+  | "unfold" => pure (.unfold (← getNat j "n") (← getNat j "h") (← getNat j "w") (← getRatList j "x"))
+  | "predict" => pure (.predict (← getNat j "n") (← getNat j "h") (← getNat j "w") (← getRatList j "x"))
+  | "assign" => pure (.assign (← getSlot (← getStr j "slot")) (← getRatList j "v"))
+  | "set_weights" =>
+    let a ← (← j.getObjVal? "ws").getArr?
+    let ws ← a.toList.mapM fun v => do
+      let l ← v.getArr?
+      l.toList.mapM ratOfJson
+    pure (.setWeights ws)
+  | "set_iteration" => pure (.setIteration (← getInt j "i"))
+  | "reconfigure" => pure (.reconfigure (← getQuant j "qk") (← getQuant j "qb"))
+  | _ => throw s!"bad history op {k}"
+
+def obsToJson : Obs → Json
+  | .weights w => Json.mkObj [("k", "weights"), ("fk", optRats (w.map (·.1))), ("fb", optRats (w.map (·.2)))]
+  | .unfolded w y => Json.mkObj [("k", "unfolded"), ("uk", optRats (w.map (·.1))), ("ub", optRats (w.map (·.2))),
+                                 ("uy", optRats y)]
+  | .out y => Json.mkObj [("k", "out"), ("y", optRats y)]
+  | .done ok => Json.mkObj [("k", "done"), ("ok", Json.bool ok)]
 
 def handle (j : Json) : Except String Json := do
   let op ← getStr j "op"
   match op with
   | "layer" =>
     -- one folded layer: inference call, get_folded_weights, unfolded layer, conv→BN reference
-    let L ← getFolded j
+    -- `Lreq`: the layer as requested; `L`: the layer the constructor builds (`ctorCfg`)
+    let Lreq ← getFolded j
+    let L : Folded := { Lreq with cfg := ctorCfg Lreq.cfg }
     let tab ← getRs j
     needRs tab L.bn
     let rs := rsOf tab
@@ -121,15 +156,16 @@ def handle (j : Json) : Except String Json := do
     let fw := L.foldedWeights rs
     let un := L.unfold rs
     -- reference: stock conv (no quantizers, linear) followed by stock batch norm
-    let P0 : Plain := { cfg := L.cfg, kernel := L.kernel, bias := L.bias, qk := none, qb := none, act := none }
-    let ref := L.bn.infer rs L.cfg.cout (P0.call x)
+    --            with the REQUESTED configuration (data_format included)
+    let P0 : Plain := { cfg := Lreq.cfg, kernel := L.kernel, bias := L.bias, qk := none, qb := none, act := none }
+    let ref := L.bn.infer rs Lreq.cfg.chan (P0.call x)
     -- magnitude (sum of absolute values of all terms) of the un-quantized folded computation,
     -- for the stated float tolerance
     let inv := mulGamma L.bn.gamma (rsqrtVec rs L.bn.var L.bn.eps)
     let magb : Option T := foldedBias L.cfg.cout (absT inv) (L.bias.map absT)
       (L.bn.mean.map fun m => if m < 0 then m else -m) (L.bn.beta.map absT)
     let mag : Option T := fw.bind fun (fk, _) => magb.map fun mb =>
-      biasAdd L.cfg.cout (convOp L.cfg (absT x) (absT fk)) mb
+      biasAdd L.cfg.chan (convOp L.cfg (absT x) (absT fk)) mb
     pure <| Json.mkObj [
       ("y", optRats y),
       ("fk", optRats (fw.map (·.1))), ("fb", optRats (fw.map (·.2))),
@@ -137,7 +173,29 @@ def handle (j : Json) : Except String Json := do
       ("uk", optRats (un.map (·.kernel))), ("ub", optRats (un.bind (·.bias))),
       ("uy", optRats (un.map fun P => P.call x)),
       ("ref", rats ref), ("mag", optRats mag), ("magb", optRats magb),
-      ("oh", Json.num (L.cfg.g.oh : Int)), ("ow", Json.num (L.cfg.g.ow : Int)), ("cout", Json.num (L.cfg.cout : Int))]
+      ("oh", Json.num (L.cfg.g.oh : Int)), ("ow", Json.num (L.cfg.g.ow : Int)), ("cout", Json.num (L.cfg.cout : Int)),
+      ("built_cf", Json.bool L.cfg.g.cf)]
+  | "history" =>
+    -- one layer OBJECT, a list of uses; the observations of `Obj.run`
+    let Lreq ← getFolded j
+    let L : Folded := { Lreq with cfg := ctorCfg Lreq.cfg }
+    let tab ← getRs j
+    let rs := rsOf tab
+    let it ← getInt j "iteration"
+    let opsJ ← (← j.getObjVal? "ops").getArr?
+    let ops ← opsJ.toList.mapM getHistOp
+    let o0 : Obj := { L := L, iteration := it }
+    -- the rsqrt oracle must cover every variance vector the history goes through
+    let _ ← ops.foldlM (init := o0) fun (o : Obj) (op : Op) => do
+      let o' := (o.step rs op).1
+      needRs tab o'.L.bn
+      pure o'
+    needRs tab L.bn
+    let r := o0.run rs ops
+    pure <| Json.mkObj [
+      ("obs", Json.arr (r.2.map obsToJson).toArray),
+      ("iteration", Json.num r.1.iteration),
+      ("weights", Json.arr (r.1.getWeights.map rats).toArray)]
   | "graph" =>
     -- a layer DAG: fold-site selection, classes after model_quantize, and the network function
     -- before / after the conversions
